@@ -5,7 +5,21 @@
 EXTENDS WorkQProps, Json
 
 CONSTANT HistLen
-VARIABLE hist
+VARIABLES hist,
+          acted,     \* connections that issued a request since the event loop last ran
+          nadmin     \* admin requests since then
+(* The replay driver submits the operations between two runs of the event loop as one batch; the
+   real server serves the queued requests of ONE connection back to back, so a behaviour is
+   replayable in order only if every connection acts at most once per batch (admin requests use
+   a pool of 12 connections; the server-internal loops count as one connection "svc"). *)
+Actor(l) == IF l.op \in {"pull", "finish", "disconnect"} THEN {l.w}
+            ELSE IF l.op = "connect" THEN {l.w, "svc"}
+            ELSE IF l.op = "wait" THEN {l.c}
+            ELSE IF l.op = "kill" /\ l.k # "admin" THEN {l.k}
+            ELSE IF l.op \in {"tick", "watchdog"} THEN {"svc"}
+            ELSE {}
+IsAdmin(l) == l.op \in {"add", "setinfo", "drop"} \/ (l.op = "kill" /\ l.k = "admin")
+LoopRan(l) == l.op \in {"drained", "restart", "runloop0"}
 
 SetSeq(S) == S      \* ToJson renders a set as an array
 
@@ -21,9 +35,19 @@ Proj == [count   |-> count,
          conn    |-> conn,
          wake    |-> wake]
 
-SimInit == Init /\ hist = <<>>
-SimNext == Next /\ hist' = Append(hist, [last |-> last', st |-> Proj'])
-SimSpec == SimInit /\ [][SimNext]_<<vars, hist>>
+SimInit == Init /\ hist = <<>> /\ acted = {} /\ nadmin = 0
+IdleLoop ==      \* the event loop runs although nothing is pending (a batch boundary)
+  /\ ~draining /\ wake = <<>> /\ (acted # {} \/ nadmin > 0)
+  /\ last' = [op |-> "runloop0"]
+  /\ UNCHANGED <<count, job, id2job, heap, waiter, conn, running, wake, now, stats, fwait, draining>>
+SimNext ==
+  /\ (Next \/ IdleLoop)
+  /\ Actor(last') \cap acted = {}
+  /\ IsAdmin(last') => nadmin < 10
+  /\ acted' = IF LoopRan(last') THEN {} ELSE acted \cup Actor(last')
+  /\ nadmin' = IF LoopRan(last') THEN 0 ELSE IF IsAdmin(last') THEN nadmin + 1 ELSE nadmin
+  /\ hist' = Append(hist, [last |-> last', st |-> Proj'])
+SimSpec == SimInit /\ [][SimNext]_<<vars, hist, acted, nadmin>>
 
 EmitHist == (Len(hist) = HistLen) => PrintT("@@" \o ToJson(hist))
 StopAtLen == Len(hist) <= HistLen
